@@ -8,7 +8,7 @@ VERIF=$(cd "$(dirname "$0")/.." && pwd)
 D=$1; shift
 for p in "$@"; do
   log="$D/check-$p.log"
-  env VERIF_REPO="$D" VERIF_OUT="$D/.verif-out" timeout -k 5 1500 "$VERIF/check" "$p" quick >"$log" 2>&1; rc=$?
+  env VERIF_REPO="$D" VERIF_OUT="$D/.verif-out" timeout -k 5 2400 "$VERIF/check" "$p" quick >"$log" 2>&1; rc=$?
   oracle=$(grep -o "oracle=[A-Za-z0-9_.-]*" "$log" | sort -u | tr '\n' ' ')
   verdict=MISSED; [ $rc -eq 1 ] && verdict=caught; [ $rc -ge 2 ] && verdict=harness-error-rc$rc
   rep=""; f=$(grep -o "replay=[^ ]*\.json" "$log" | head -1 | cut -d= -f2)
